@@ -70,10 +70,18 @@ def r14_1(ctx):
             pred = p_call(lambda n, k=gm.key: n == k, False)
         else:
             # assert!(amount <= guard())  /  max_size = min(len(), ..) ; assert!(size <= max_size)
-            def pred(f, amount=amount, gk=gm.key):
+            def pred(f, amount=amount, gk=gm.key, guard=guard):
                 if f[0] != 'rel' or f[1] not in ('Le', 'Lt', 'Eq'):
                     return False
-                return simplify(f[2]) == amount and (f"C:{gk}" in leafs(f[3]))
+                if simplify(f[2]) != amount:
+                    return False
+                if f"C:{gk}" in leafs(f[3]):
+                    return True
+                # contiguous_window() written out: min(window(), ..) is still at most the free space
+                r = strip(simplify(f[3]))
+                wk = F.method(RB, 'window').key
+                return guard == 'contiguous_window' and is_call(r, '::min', nargs=2) and \
+                    any(strip(x)[0] == 'call' and strip(x)[1] == wk for x in call_args(r))
         if fnm in ('enqueue_one_with', 'dequeue_one_with'):
             isok = p_call(lambda n: n.endswith('::is_ok'), True)
             if unguarded(F, b, [w['bb']], isok):
